@@ -279,10 +279,12 @@ class GroupedRecord(Record):
 
     def _asdict(self, fields=None, exclude=None):
         exclude = exclude or []
-        keys = self.fieldname_to_record.keys()
+        # Read every value from the record that owns the field: the attributes of the GroupedRecord
+        # itself (name, records, ...) would otherwise shadow fields with the same name.
+        owners = self.fieldname_to_record
         if fields:
-            return OrderedDict((k, getattr(self, k)) for k in fields if k in keys and k not in exclude)
-        return OrderedDict((k, getattr(self, k)) for k in keys if k not in exclude)
+            return OrderedDict((k, getattr(owners[k], k)) for k in fields if k in owners and k not in exclude)
+        return OrderedDict((k, getattr(owners[k], k)) for k in owners if k not in exclude)
 
     def __repr__(self):
         return "<{} {}>".format(self.name, self.records)
@@ -309,7 +311,9 @@ class GroupedRecord(Record):
         new_records = []
         for record in self.records:
             new_records.append(
-                record.__class__(*map(kwds.pop, record.__slots__, (getattr(self, k) for k in record.__slots__)))
+                record.__class__(
+                    *map(kwds.pop, record.__slots__, (getattr(self.fieldname_to_record[k], k) for k in record.__slots__))
+                )
             )
         if kwds:
             raise ValueError("Got unexpected field names: {kwds!r}".format(kwds=list(kwds)))
